@@ -14,7 +14,7 @@ RULE = ("Families of weight vectors over the same 12-40 real unit ids (str/int),
         "program selected by a condition field, plus (c) the public choice function called directly with int and float weight lists. Oracles: (i) monotone coupling - along the chain no unit moves to a "
         "later-declared group; (ii) for each unit the position intervals [P_(g-1), P_g) implied by every observed (vector, "
         "group) - across programs, labels and branches - have a non-empty intersection (widened by 1e-12). No reference hash "
-        "is used. Non-trivial = case in which at least one unit changes group along the family; distinct by (units, family, salt).")
+        "is used. A second part locates a unit's grid point black-box (two-group ramps through the DSL) and evaluates a ramp in steps of 1e-7 of the hash space that straddles it (weights with 8-10 significant digits). Non-trivial = case in which at least one unit changes group along the family; distinct by (units, family, salt).")
 ASSUMPTIONS = [
     "prefix shares are compared as exact Fractions of the source-text weights; intervals are widened by 1e-12 for float rounding",
 ]
@@ -78,8 +78,11 @@ def families(draw):
         scaled.append(ws)
     fam = scaled
     units = draw(st.lists(st.one_of(st.integers(0, 10 ** 6),
-                                    st.text(alphabet="abcdefghijklmnopqrstuvwxyz0123456789", min_size=1, max_size=10)),
-                          min_size=12, max_size=40, unique_by=str))
+                                    st.text(alphabet="abcdefghijklmnopqrstuvwxyz0123456789", min_size=0, max_size=10),
+                                    st.sampled_from(["", 0, 0.0, False, None, "0", " "])),
+                          min_size=12, max_size=40, unique_by=lambda v: (type(v).__name__, str(v))))
+    if draw(st.booleans()) and "" not in units:
+        units[0] = ""  # the unit whose key is the empty string (a falsy id must still be hashed, not drawn at random)
     salt = draw(st.sampled_from([None, None, "s1", "exp_v2", ""]))
     case = {"family": fam, "units": [M.enc(u) for u in units], "salt": salt, "kind": kind}
     if len(fam[0]) >= 3 and draw(st.integers(0, 2)) == 0:
@@ -166,7 +169,7 @@ def judge(case):
     # the public choice function itself (int and float weight lists), one id string = one unit
     dc = sut.binning().deterministic_choice
     for u in units[:12]:
-        key = "direct:" + str(u)
+        key = str(u) if isinstance(u, str) else "direct:" + str(u)
         for mode in ("as-written", "float"):
             lo, hi = Fraction(0), Fraction(1)
             prev = None
@@ -195,9 +198,68 @@ def judge(case):
             "sample": {"family": fam, "units": units[:5], "salt": salt, "units_that_changed_group": moved}}
 
 
+def judge_fine(case):
+    """a ramp in steps of 1e-7 of the hash space straddling the unit's own (black-box located) position: weights with 8-10
+    significant digits; any per-weight rounding of the emitted weights reorders or merges these boundaries"""
+    from . import c03
+
+    uid = M.dec(case["uid"])
+    salt = case.get("salt")
+    try:
+        k, problem = c03.locate(uid, salt)
+    except Exception as e:
+        return {"viol": ["evaluation raised %s: %s for unit %r" % (type(e).__name__, e, uid)], "tags": ["fine-ramp"]}
+    if problem:
+        return {"viol": ["%s (unit %r)" % (problem, uid)], "tags": ["fine-ramp"]}
+    u = Fraction(k, 2 ** 32)
+    if not (Fraction(1, 100) < u < Fraction(99, 100)):
+        return {"viol": [], "nontrivial": False, "tags": ["fine-ramp:skipped-extreme-position"], "skipped": "extreme-position"}
+    base = int(u * 10 ** 7)  # floor to 7 decimals
+    viol = []
+    prev = None
+    fam = []
+    for d in case["steps"]:
+        a = Fraction(base + d, 10 ** 7) + Fraction(case["jitter"], 10 ** 10)
+        wa = "%.10f" % float(a) if False else _dec10(a)
+        wb = _dec10(1 - a)
+        fam.append([wa, wb])
+        res = sut.compile_text(M.render(M.program("fine", M.ret([(M.lit_str("A"), wa), (M.lit_str("B"), wb)]), salt=salt, splitters=["uid"])))
+        if res[0] != "ok":
+            return {"viol": ["does not compile: %r" % (res[1:],)], "tags": ["fine-ramp"]}
+        got = sut.call(res[1], {"uid": uid})
+        want = "A" if u < a else "B"
+        if got != ("group", want):
+            viol.append("unit %r sits at grid point %d (located black-box); with A weighted %s, B weighted %s its position is %s A's "
+                        "share, yet the evaluator gave %r" % (uid, k, wa, wb, "inside" if want == "A" else "outside", got[1:]))
+        i = 0 if got == ("group", "A") else 1
+        if prev is not None and i > prev:
+            viol.append("unit %r left group A although A's share only grew: %r -> %r" % (uid, fam[-2], fam[-1]))
+        prev = i
+    return {"viol": viol[:4], "nontrivial": True, "tags": ["fine-ramp"], "key": ["fine", case["uid"], salt, case["steps"], case["jitter"]],
+            "sample": {"unit": uid, "located_grid_point": k, "ramp": fam[:3]}}
+
+
+def _dec10(fr):
+    n = fr * 10 ** 10
+    assert n.denominator == 1
+    n = int(n)
+    return "%d.%010d" % (n // 10 ** 10, n % 10 ** 10)
+
+
+@st.composite
+def fine_cases(draw):
+    uid = draw(st.one_of(st.integers(0, 10 ** 6), st.text(alphabet="abcdefghijklmnopqrstuvwxyz0123456789", min_size=1, max_size=8)))
+    steps = sorted(draw(st.lists(st.integers(-6, 7), min_size=4, max_size=8, unique=True)))
+    return {"uid": M.enc(uid), "salt": draw(st.sampled_from([None, "s1"])), "steps": steps, "jitter": draw(st.integers(0, 999))}
+
+
 def judge_case(record):
-    return judge(record["case"])["viol"]
+    c = record["case"]
+    return (judge_fine(c) if "steps" in c else judge(c))["viol"]
 
 
 def run(ctx, rec):
     runner.hyp_run(ctx, rec, "families", families(), judge, ctx.n(400, 1500))
+    if rec.violations:
+        return
+    runner.hyp_run(ctx, rec, "fine-ramps-around-located-position", fine_cases(), judge_fine, ctx.n(8, 40), shrink=False)
